@@ -57,9 +57,18 @@ def new_pattern(rng, api, tracks, lines, attached):
     for ln in range(lines):
         for tr in range(tracks):
             n = p.data[ln][tr]
-            n.vel = (ln * tracks + tr) % 130
-            n.ctl = rng.randrange(65536)
-            n.val = (ln << 8 | tr) & 0xFFFF
+            style = rng.randrange(6)
+            if style == 0:
+                n.module = 1 + (ln * tracks + tr) % 0xFFFE       # a cell with nothing but a module number
+            elif style == 1:
+                n.note = api.NOTECMD(rng.choice(_NOTEVALS[1:]))
+            elif style == 2:
+                pass                                             # empty cell
+            else:
+                n.vel = (ln * tracks + tr) % 130
+                n.module = rng.randrange(65536) if style == 3 else 0
+                n.ctl = rng.randrange(65536)
+                n.val = (ln << 8 | tr) & 0xFFFF
     proj = None
     if attached:
         proj = api.Project()
@@ -93,7 +102,7 @@ def ownership_ok(res, pat, proj, case, setter):
     return True
 
 
-def edit(res, rng, api, pat, proj, setter, fault_at, scribble, dup_yield, case):
+def edit(res, rng, api, pat, proj, setter, fault_at, scribble, dup_yield, case, scroll=False):
     """Perform one bulk edit with an optional injected fault. Returns True if no violation."""
     tracks, lines = pat.tracks, pat.lines
     before_raw = pat.raw_data
@@ -113,6 +122,11 @@ def edit(res, rng, api, pat, proj, setter, fault_at, scribble, dup_yield, case):
                 raise fault_type(f"cell {k}")
             if p is not pat:
                 raise AssertionError("fn called with a different pattern")
+            if scroll:
+                # the pattern's own live cell objects, moved one line up (each object ends up in exactly one cell)
+                note = p.data[(ln + 1) % lines][tr]
+                expected[ln][tr] = before_cells[(ln + 1) % lines][tr]
+                return note
             note = make_note(rng, api)
             expected[ln][tr] = note.raw_data
             return note
@@ -120,7 +134,7 @@ def edit(res, rng, api, pat, proj, setter, fault_at, scribble, dup_yield, case):
     else:
         cells = [(ln, tr) for ln in range(lines) for tr in range(tracks)]
         rng.shuffle(cells)
-        cells = cells[:rng.randint(0, len(cells))] if fault_at is None else cells
+        cells = cells[:rng.randint(0, len(cells))] if fault_at is None and not scroll else cells
         if dup_yield and cells:
             cells = cells + [cells[0]]
 
@@ -134,8 +148,12 @@ def edit(res, rng, api, pat, proj, setter, fault_at, scribble, dup_yield, case):
                 if fault_at is not None and counter["n"] == fault_at:
                     raise fault_type(f"yield {counter['n']}")
                 counter["n"] += 1
-                note = make_note(rng, api)
-                expected[ln][tr] = note.raw_data
+                if scroll:
+                    note = p.data[(ln + 1) % lines][tr]
+                    expected[ln][tr] = before_cells[(ln + 1) % lines][tr]
+                else:
+                    note = make_note(rng, api)
+                    expected[ln][tr] = note.raw_data
                 yield ln, tr, note
             if fault_at is not None and counter["n"] == fault_at:
                 raise fault_type("after last yield")
@@ -267,6 +285,10 @@ def run_exhaustive(res, rng, api, shapes):
                     res.hist("fault_points_by_setter", setter if k is not None else setter + "-success")
                     if not edit(res, rng, api, pat, proj, setter, k, scribble, False, case):
                         pat, proj = new_pattern(rng, api, tracks, lines, attached)
+                # the successful edit once more, this time moving the pattern's own cell objects around
+                case = {"tracks": tracks, "lines": lines, "attached": attached, "setter": setter, "fault_at": None, "scroll": True}
+                res.count("edits_moving_own_cells")
+                edit(res, rng, api, pat, proj, setter, None, False, False, case, scroll=True)
     res.exhaustive = True
 
 
@@ -282,14 +304,18 @@ def run_random(res, rng, api, n):
             fault = rng.randrange(cells + (1 if setter == "gen" else 0)) if rng.random() < 0.5 else None
             scribble = setter == "gen" and rng.random() < 0.3
             dup = setter == "gen" and fault is None and rng.random() < 0.3
-            chain.append([setter, fault, scribble, dup])
+            scroll = rng.random() < 0.2
+            if scroll:
+                scribble = dup = False
+                res.count("edits_moving_own_cells")
+            chain.append([setter, fault, scribble, dup, scroll])
             case = {"tracks": tracks, "lines": lines, "attached": attached, "chain": chain}
             res.case((s, c, tracks, lines, attached, setter, fault, scribble, dup))
             res.hist("chain_position", c)
-            if not edit(res, rng, api, pat, proj, setter, fault, scribble, dup, case):
+            if not edit(res, rng, api, pat, proj, setter, fault, scribble, dup, case, scroll=scroll):
                 break
         if s == 0:
-            res.sample({"tracks": tracks, "lines": lines, "attached": attached, "chain[setter,fault_at,scribble,dup_yield]": chain})
+            res.sample({"tracks": tracks, "lines": lines, "attached": attached, "chain[setter,fault_at,scribble,dup_yield,move_own_cells]": chain})
 
 
 def run_shard(spec_, res):
@@ -315,8 +341,8 @@ def replay(case, res):
     rng = random.Random(0)
     pat, proj = new_pattern(rng, api, case["tracks"], case["lines"], case.get("attached", False))
     if "chain" in case:
-        for setter, fault, scribble, dup in case["chain"]:
-            if not edit(res, rng, api, pat, proj, setter, fault, scribble, dup, case):
+        for setter, fault, scribble, dup, *rest in case["chain"]:
+            if not edit(res, rng, api, pat, proj, setter, fault, scribble, dup, case, scroll=bool(rest and rest[0])):
                 return
     else:
-        edit(res, rng, api, pat, proj, case["setter"], case.get("fault_at"), case.get("scribble", False), False, case)
+        edit(res, rng, api, pat, proj, case["setter"], case.get("fault_at"), case.get("scribble", False), False, case, scroll=case.get("scroll", False))
